@@ -58,7 +58,7 @@ def hname(base):
 
 
 def build(ctx):
-    return ctx.harness(hname("c16"), ["c16.cpp", "c16s.cpp"], repo_sources=SRC)
+    return ctx.harness(hname("c16"), ["c16.cpp", "c16s.cpp", "c16x.cpp"], repo_sources=SRC)
 
 
 def classify(ops, res):
@@ -174,6 +174,23 @@ def gen_solve_op(r, ctx=None, full=False):
     if ctx is not None:
         ctx.hist("solve_eps", f"{num}/2^{sh}"); ctx.hist("solve_maxiter", mi)
     return f"solve {num} {sh} {mi}"
+
+
+def gen_sx_case(r, maxlen, ctx=None):
+    """the same problem generator, for QpMcSimplexDecomp (CS / ATM / ADM / MMR use the same four table families):
+    constructor `sbox`, ops prefixed with `x`; `deactex` does not exist there (deactivateVariable deactivates the
+    example with its last variable), `xkkt` = checkKKT()"""
+    ops = gen_box_case(r, maxlen, None)
+    out = ["s" + ops[0]]
+    for o in ops[1:]:
+        t = o.split()
+        if t[0] == "deactex": t = ["deactvar", t[1]]
+        if t[0] == "select1": t = [r.choice(["select", "kkt"])]
+        out.append("x" + " ".join(t))
+    if ctx is not None:
+        h = out[0].split()
+        ctx.hist("sx_family", h[1]); ctx.hist("sx_classes", h[2]); ctx.hist("sx_examples", h[3])
+    return out
 
 
 def split_line(l):
@@ -633,6 +650,16 @@ def run(ctx):
     ctx.cov["distinct_nontrivial"] += len({"\n".join(c) for c in bcases if len(c) > 3})
     ctx.sample({"box_ops": bcases[len(bcases) // 2][:8]})
     correspond_box(ctx, "K-C16-box", bcases, [exe], [drv])
+    # the same for QpMcSimplexDecomp (CS / ATM / ADM / MMR) incl. whole runs of QpSolver::solve
+    rx = ctx.rng.fork("c16-sx")
+    xcases = [c for c in corpus if c[0].startswith("sbox")]
+    xcases += [gen_sx_case(rx, maxlen, ctx) for _ in range(500 if ctx.quick else 2500)]
+    for c in xcases:
+        for o in c: ctx.hist("sx_op_mix", o.split()[0])
+    ctx.cov["evaluations"] += len(xcases)
+    ctx.cov["distinct_nontrivial"] += len({"\n".join(c) for c in xcases if len(c) > 3})
+    ctx.sample({"simplex_ops": xcases[len(xcases) // 2][:6]})
+    correspond_box(ctx, "K-C16-simplex", xcases, [exe], [drv])
     # dedicated linear solver, one-epoch sweeps along the observed schedule
     lcases = [gen_linear_case(r, 6 if ctx.quick else 25, ctx) for _ in range(300 if ctx.quick else 1500)]
     lcases = add_schedules(exe, lcases)
